@@ -129,4 +129,27 @@ MUTATIONS = [
 	M('c14-query-files-default', ['C14'], 'src/gambit/query.py', 'query_sigs = calc_file_signatures(db.signatures.kmerspec, files, **parse_kw)', 'from gambit.kmers import DEFAULT_KMERSPEC\n\tquery_sigs = calc_file_signatures(DEFAULT_KMERSPEC, files, **parse_kw)', 'query genome files parsed with the default parameters'),
 	M('c14-usedb-not-checked', ['C14'], 'src/gambit/cli/dist.py', '\t\tif ref_sigs is not None and ref_sigs.kmerspec != kspec:', '\t\tif ref_sigs is not None and not use_db and ref_sigs.kmerspec != kspec:', 'explicit -k/-p not checked against --use-db'),
 	M('c14-dbparams-ignored', ['C14'], 'src/gambit/cli/signatures.py', '\t\t\tkspec = ctx.obj.signatures.kmerspec\n', '\t\t\tkspec = DEFAULT_KMERSPEC\n', '--db-params silently uses the defaults'),
+	# ---- C16 ----------------------------------------------------------------------------------------
+	M('c16-fmt-3-decimals', ['C16'], 'src/gambit/cluster.py', "fmt: str = '0.4f'", "fmt: str = '0.3f'", 'three decimals'),
+	M('c16-truncate', ['C16'], 'src/gambit/cluster.py', 'values_str = (format(d, fmt) for d in values)', 'values_str = (format(int(d * 10000) / 10000, fmt) for d in values)', 'values truncated instead of rounded'),
+	M('c16-usedb-ids-reversed', ['C16'], 'src/gambit/cli/dist.py', "\t\tref_sigs = ctxobj.signatures\n\t\tref_ids = ref_sigs.ids\n", "\t\tref_sigs = ctxobj.signatures\n\t\tref_ids = sorted(ref_sigs.ids)\n", '--use-db column labels sorted instead of file order'),
+	M('c16-zip-drop-row', ['C16'], 'src/gambit/cluster.py', 'for row_id, values in zip_strict(row_ids, dmat):', 'for row_id, values in zip(row_ids[1:] if len(row_ids) > 6 else row_ids, dmat):', 'first row label dropped for large query sets, labels shifted'),
+	M('c16-listfile-labels-sorted', ['C16', 'C08'], 'src/gambit/cli/common.py', "\tids = [get_file_id(f, strip_dir, strip_ext) for f in paths_str]", "\tids = [get_file_id(f, strip_dir, strip_ext) for f in (sorted(paths_str) if listfile is not None and not explicit else paths_str)]", 'list-file labels in sorted order'),
+	M('c16-square-uses-ref-side', ['C16'], 'src/gambit/cli/dist.py', '\t\tdmat = jaccarddist_pairwise(query_sigs, progress=dist_pconf)', '\t\tdmat = jaccarddist_pairwise(query_sigs, progress=dist_pconf)\n\t\tdmat[0, :] = dmat[:, 0] = 0 if len(dmat) > 5 else dmat[0, :]', 'first row/column zeroed for larger square matrices'),
+	# ---- C17 ----------------------------------------------------------------------------------------
+	M('c17-single-linkage', ['C17'], 'src/gambit/cluster.py', "return linkage(sm, method='average')", "return linkage(sm, method='single')", 'single linkage'),
+	M('c17-complete-linkage', ['C17'], 'src/gambit/cluster.py', "return linkage(sm, method='average')", "return linkage(sm, method='complete')", 'complete linkage'),
+	M('c17-weighted-linkage', ['C17'], 'src/gambit/cluster.py', "return linkage(sm, method='average')", "return linkage(sm, method='weighted')", 'WPGMA instead of UPGMA (differs only for unbalanced merges)'),
+	M('c17-branch-is-height', ['C17'], 'src/gambit/cluster.py', 'right.branch_length = height - (0 if right_i < nleaves else link[right_i - nleaves, 2])', 'right.branch_length = height', 'right branch length = node height'),
+	M('c17-child-height-wrong-row', ['C17'], 'src/gambit/cluster.py', 'left.branch_length = height - (0 if left_i < nleaves else link[left_i - nleaves, 2])', 'left.branch_length = height - (0 if left_i < nleaves else link[max(left_i - nleaves - 1, 0), 2])', "left child's height read from the previous linkage row"),
+	M('c17-labels-sorted', ['C17'], 'src/gambit/cli/tree.py', 'tree = linkage_to_bio_tree(link, labels)', 'tree = linkage_to_bio_tree(link, sorted(labels))', 'leaf labels assigned in sorted order'),
+	M('c17-half-heights', ['C17'], 'src/gambit/cluster.py', "\tfor left_i, right_i, height, size in link:\n", "\tfor left_i, right_i, height, size in link:\n\t\theight = height / 2\n", 'node heights halved for the branch lengths of leaves only (inconsistent)'),
+	# ---- C08 ----------------------------------------------------------------------------------------
+	M('c08-gz-after-fasta-only', ['C08', 'C16'], 'src/gambit/cli/common.py', "\tfilename = strip_extensions(filename, GZIP_EXTENSIONS)\n\tfilename = strip_extensions(filename, FASTA_EXTENSIONS)", "\tfilename = strip_extensions(filename, FASTA_EXTENSIONS)\n\tfilename = strip_extensions(filename, GZIP_EXTENSIONS)", 'extensions stripped in the wrong order'),
+	M('c08-sigfile-labels-1n', ['C08'], 'src/gambit/cli/query.py', '\t\tinputs = [QueryInput(id) for id in sigs.ids]\n\t\tresults = query(db, sigs, params, inputs=inputs, progress=pconf)', '\t\tresults = query(db, sigs, params, progress=pconf)', '-s rows labelled 1..n'),
+	M('c08-listfile-cwd', ['C08'], 'src/gambit/cli/common.py', '\t\tpaths = [Path(listfile_dir) / line for line in lines]', '\t\tpaths = [Path(line) for line in lines]', 'list-file lines resolved against the cwd'),
+	M('c08-labels-dedup', ['C08'], 'src/gambit/cli/query.py', '\t\tids, files = common.get_sequence_files(files_arg, listfile, ldir)\n', '\t\tids, files = common.get_sequence_files(files_arg, listfile, ldir)\n\t\tids = [id_ + (f".{ids[:i].count(id_)}" if ids[:i].count(id_) else "") for i, id_ in enumerate(ids)]\n', 'duplicate labels get a numeric suffix'),
+	M('c08-results-in-completion-order', ['C08', 'C13'], 'src/gambit/sigs/calc.py', '\t\t\t\tsigs[i] = future.result()\n', '\t\t\t\tsigs[i if len(files) < 12 else sum(s is not None for s in sigs)] = future.result()\n', 'large batches: signatures stored in completion order'),
+	M('c08-cores-drop-last', ['C08'], 'src/gambit/query.py', '\tquery_sigs = calc_file_signatures(db.signatures.kmerspec, files, **parse_kw)', "\tquery_sigs = calc_file_signatures(db.signatures.kmerspec, files, **parse_kw)\n\tif parse_kw.get('max_workers') == 3 and len(query_sigs) > 1:\n\t\tquery_sigs[-1] = query_sigs[0]", 'with -c 3 the last genome gets the first genome\'s signature'),
+	M('c08-strip-all-extensions', ['C08'], 'src/gambit/cli/common.py', "\t\t\treturn filename[:-len(ext)]\n\treturn filename", "\t\t\treturn strip_extensions(filename[:-len(ext)], extensions)\n\treturn filename", 'extensions stripped repeatedly (x.fasta.fasta -> x)'),
 ]
